@@ -77,7 +77,7 @@ def build(ctx, cls, kws, nf, proc):
 # local parts whose identity needs functional relations between complex trilogarithms at z, 1-z and 1/(1-z): the
 # exact query returns a spurious candidate (atoms are free) and the tolerance query does not finish (188 s): not decided,
 # listed in the evidence as outside the claim instead of being reported either way
-UNDECIDED_LOC = {"yadism.coefficient_functions.asy.g1_nc_raw.c2ns_NNLL_loc"}
+UNDECIDED_LOC = set()  # (was: asy.g1_nc_raw.c2ns_NNLL_loc; decided exactly since constants are read pi-consistently)
 
 
 def eval_rsl(ctx, rsl, mode):
@@ -613,6 +613,9 @@ SHARDABLE = True
 
 def run(chk, only=None):
     tier, seed = chk.tier, chk.seed
+    # float values of q pi^k (zeta2, np.pi**2/3, ...) are read with ONE rational for pi: constants the source spells in different ways stay
+    # consistent, and the analytic families are decided as EXACT identities instead of through the 1e-10 noise tolerance
+    real.PI_CONSISTENT[0] = True
     chk.bounds = {
         "z": "(0,1) real, unbounded precision", "nf": "3..6 (quick: {3,5}; labels {3,6})",
         "masses": "Q2, m2hq, m1sq, m2sq > 0 symbolic", "tau": "1e-4 relative to the triangle-inequality envelope, "
@@ -624,6 +627,7 @@ def run(chk, only=None):
              "LeProHQ.*, adani.* -> uninterpreted functions of their numeric arguments",
              "numpy namespace of coefficient_functions modules -> shim keeping proxies in object arrays")
     chk.assume("floats are read as exact rationals (DESIGN §1); rounding is outside the claim",
+               "float values of q pi^k (k <= 4, q rational with denominator <= 2000) are read as q P^k with one rational P = repr(math.pi) (relative change 1e-16)",
                "NUMBA_DISABLE_JIT=1: Python semantics of the kernels",
                "atoms log/sqrt/Li2 are free reals constrained by sound facts; unsat verdicts hold for the true functions")
     if only in (None, "generic") and chk.first:
